@@ -23,12 +23,22 @@ def queries(tier):
         T += [("scheme5", "", 5, "://h"), ("auth4", "tcp://", 4, ""), ("path4", "http://h/", 4, ""),
               ("path5", "http://h/", 5, ""), ("esc", "http://h/%", 3, "/"), ("dots", "http://h/a/", 4, "/b")]
     for name, pre, n, post in T:
+        d = {"PRE": '"%s"' % pre, "POST": '"%s"' % post, "NSYM": n}
+        if name.startswith("ipc"):
+            d["NO_REJECT"] = 1
+        if name.startswith("port") or name in ("authmid", "v6b"):
+            d["HAS_PORT"] = 1
         qs.append(Query("parse-%s" % name, "c19/parse.c", tus=["platform/posix/posix_resolv_gai.c"], env=ENV,
                         flags=["--no-sat-preprocessor"],
-                        defs={"PRE": '"%s"' % pre, "POST": '"%s"' % post, "NSYM": n}, unwind=len(pre) + n + len(post) + 3,
+                        defs=d, unwind=len(pre) + n + len(post) + 3,
                         unwind_rules=[("nni_url_parse_inline_inner", r"nni_schemes\[i\]", 40), ("nni_url_default_port", r"nni_url_default_ports\[i\]", 16),
                                       ("harness", r"nni_schemes\[i\]", 40)],
                         timeout=900, mem_gb=5, params={"template": pre + "<%d symbolic bytes>" % n + post}))
+    for lng in (0, 1):
+        qs.append(Query("clone-%s" % ("long" if lng else "short"), "c19/clone.c", tus=["core/strs.c", "platform/posix/posix_resolv_gai.c"],
+                        env=ENV, defs={"LONG": lng, "NSYM": 2}, unwind=190, timeout=600, mem_gb=8,
+                        unwind_rules=[("nni_url_parse_inline_inner", r"nni_schemes\[i\]", 40), ("nni_url_default_port", r"nni_url_default_ports\[i\]", 16)],
+                        params={"url_bytes": 150 if lng else 57, "symbolic_path_bytes": 2}))
     for n in ((0, 1, 2, 3, 4, 5) if tier == "quick" else (0, 1, 2, 3, 4, 5, 6, 7)):
         qs.append(Query("canon-n%d" % n, "c19/canon.c", env=ENV, defs={"N": n}, unwind=n + 4, timeout=600,
                         params={"bytes": n}))
